@@ -2099,6 +2099,12 @@ def emit_fn_text(unit, rel, path, fn_id, text, line0, end_line, dlines, tmpl_whe
             if not mm:
                 raise Unsupported('%s: bad desugar_q %r' % (tmpl_where, s))
             sections.append(['desugar_q', mm.group(1), []])
+        elif head == 'tail_bind':
+            mm = re.match(r'tail_bind\s+`(.*)`\s*$', s)
+            if not mm:
+                raise Unsupported('%s: bad tail_bind %r' % (tmpl_where, s))
+            cur = ['tail_bind', mm.group(1), []]
+            sections.append(cur)
         elif head in ('sigsub', 'sigsub?'):
             mm = re.match(r'sigsub\??\s+`(.*)`\s*=>\s*`(.*)`\s*$', s)
             if not mm:
@@ -2192,6 +2198,25 @@ def emit_fn_text(unit, rel, path, fn_id, text, line0, end_line, dlines, tmpl_whe
                 new = '(match %s { Ok(vx_v) => vx_v, Err(vx_e) => return Err(core::convert::From::from(vx_e)) })' % text[m.start():m.end() - 1].strip()
                 unit.rule_log.append({'rule': 'R12', 'before': norm_ws(m.group(0)), 'after': norm_ws(new)[:100], 'where': ctx})
                 text = text[:m.start()] + new.replace('\n', ' ') + '\n' * m.group(0).count('\n') + text[m.end():]
+    for sec in list(sections):
+        if sec[0] == 'tail_bind':
+            # the tail expression of the body `E` (from the anchor to the closing brace) becomes `let vx_tail = E; vx_tail`
+            # so that proof aids can be placed between the call and the return (definition of a tail expression)
+            tm = code_mask(text)
+            toks = [re.escape(t) for t in sec[1].split()]
+            hits = [m for m in re.compile(r'\s*'.join(toks)).finditer(text) if tm[m.start()]]
+            if not hits:
+                unit.lost_aids.append({'fn': fn_id, 'aid': 'tail binding of `%s` (expression not present any more)' % sec[1]})
+                sections.remove(sec)
+                continue
+            a_ = hits[-1].start()
+            e_ = len(text.rstrip()) - 1
+            expr = text[a_:e_].rstrip()
+            if ';' in ''.join(c if tm[a_ + k] else ' ' for k, c in enumerate(expr)) and not expr.rstrip().endswith(')'):
+                raise Unsupported('%s: tail_bind anchor is not the tail expression' % fn_id)
+            text = text[:a_] + 'let vx_tail = ' + expr + ';\n vx_tail\n' + text[e_:]
+            unit.rule_log.append({'rule': 'TAIL', 'before': norm_ws(expr)[:80], 'after': 'let vx_tail = <expr>; vx_tail', 'where': ctx})
+            sections[sections.index(sec)] = ['before', ('vx_tail', 2), sec[2]]
     for sec in sections:
         if sec[0] == 'annotate_closures':
             # R16: `|x| EXPR` (single-expression closure argument) -> `|x: T| -> (vx_r: U) ensures vx_r == (EXPR) { EXPR }`
